@@ -2,6 +2,8 @@
 
 package psatoken
 
+import "encoding/json"
+
 // C05 part 1: whatever a decode entry point returns without error can be validated, read
 // through every getter, re-encoded to CBOR and JSON and verified against any key without
 // panicking. The post-decode state is ANY value the decoder contract can produce for the
@@ -65,7 +67,7 @@ func verifJSONValue(name string) (interface{}, string) {
 	case 1:
 		return ndBool(name + ".bool"), "true"
 	case 2:
-		return float64(42), "42"
+		return float64(7), "7" // (a one-character literal: the shortest value there is)
 	case 3:
 		return verifProfileNames[ndConcrete(verifChoice(name+".str", 4))], ""
 	case 4:
@@ -78,6 +80,7 @@ func verifJSONValue(name string) (interface{}, string) {
 func VerifC05jsonmap() {
 	verifInstallStubs()
 	m := map[string]interface{}{}
+	raw := map[string]json.RawMessage{"other": json.RawMessage("1")}
 	doc := `{"other":1`
 	for _, tag := range []string{"psa-profile", "eat-profile"} {
 		if ndBool(tag + ".present") {
@@ -89,10 +92,12 @@ func VerifC05jsonmap() {
 				lit = "false"
 			}
 			doc += `,"` + tag + `":` + lit
+			raw[tag] = json.RawMessage(lit)
 		}
 	}
 	doc += "}"
 	verifStub.jsonMap = m
+	verifStub.jsonRaw = raw // the same object for a decoder that keeps the member values undecoded
 	verifStub.p1 = genP1Claims(0, 4)
 	verifGenPfx = "q."
 	verifStub.p2 = genP2Claims(1, 4, 1)
